@@ -1,6 +1,6 @@
 (* Props/C16.v — counters and size views agree with what happened *)
 From Coq Require Import ZArith List Bool.
-From Verif Require Import Base.Word64 Model.Expiry Model.Store Proof.StoreMap Proof.StoreBasic.
+From Verif Require Import Base.Word64 Model.Expiry Model.Store Proof.StoreMap Proof.StoreBasic Model.Counter Proof.CounterP.
 Import ListNotations.
 Open Scope Z_scope.
 
@@ -36,3 +36,25 @@ Example c16_example :
   let ops := [OSet 1 10 1 0 5 111 1; OGet 1 6 0; OGet 2 6 0; OLoad 2 7 0 222 0 20 1 0 1; OGet 2 8 0] in
   reads_answered (newStore 5 1 3 1) ops = (4, 2) /\ hits (run1 (newStore 5 1 3 1) ops) = 2 /\ misses (run1 (newStore 5 1 3 1) ops) = 2.
 Proof. vm_compute. repeat split. Qed.
+
+(* ---- the counters themselves.  hits and misses are striped counters (internal/counter.go): an Add loads a stripe and
+   CASes load+delta into it, retrying on another stripe when it loses; the store model keeps them as plain numbers.
+   Model/Counter.v is the striped counter one atomic operation at a time (compared with the real one through hook H9);
+   under every interleaving no increment is lost, and a Value taken while nobody adds returns the total. *)
+Theorem c16_no_lost_increment : forall sched n, 1 <= n ->
+  let c := fold_left c_act sched (newCounter n) in (sumz (cstripes c)) mod two64 = cdone c.
+Proof. exact no_lost_increment. Qed.
+Print Assumptions c16_no_lost_increment.
+
+Theorem c16_quiescent_value : forall sched n t, 1 <= n ->
+  let c := fold_left c_act sched (newCounter n) in
+  cthr c t = KIdle ->
+  let c' := solo (Z.to_nat n) (c_act c (t, 2, 0, 0)) t in
+  clast c' t = cdone c /\ cthr c' t = KIdle.
+Proof. exact quiescent_value. Qed.
+Print Assumptions c16_quiescent_value.
+
+Example c16_counter_example :
+  let c := fold_left c_act [(1, 0, 0, 1); (2, 0, 4, 1); (1, 1, 0, 0); (2, 1, 0, 0); (2, 1, 0, 0); (1, 1, 5, 0); (1, 1, 0, 0); (1, 1, 0, 0)] (newCounter 4) in
+  (cstripes c, cdone c, kpc_code (cthr c 1), kpc_code (cthr c 2)) = ([1; 1; 0; 0], 2, 0, 0).
+Proof. exact counter_example. Qed.
